@@ -745,6 +745,94 @@ func c13CheckAnnotation(final *corev1.Pod) (sig, msg string, midNotSummarised bo
 	return "", "", midNotSummarised
 }
 
+// c13Summary: container -> "requests"/"limits" -> resource name -> amount, the layout of the summary annotation
+type c13Summary map[string]map[string]map[string]string
+
+// c13SummaryOf restates what the annotation of this pod has to say: the batch entries of every container that has any.
+func c13SummaryOf(pod *corev1.Pod) c13Summary {
+	sum := c13Summary{}
+	for _, ct := range pod.Spec.Containers {
+		for side, rl := range map[string]corev1.ResourceList{"requests": ct.Resources.Requests, "limits": ct.Resources.Limits} {
+			for _, rn := range []corev1.ResourceName{c13BatchCPU, c13BatchMem} {
+				if q, ok := rl[rn]; ok {
+					if sum[ct.Name] == nil {
+						sum[ct.Name] = map[string]map[string]string{}
+					}
+					if sum[ct.Name][side] == nil {
+						sum[ct.Name][side] = map[string]string{}
+					}
+					sum[ct.Name][side][string(rn)] = q.String()
+				}
+			}
+		}
+	}
+	return sum
+}
+
+// c13Tamper turns the true summary into the annotation a pod might arrive with: a superset (an extra entry in an existing
+// container), a changed amount, a missing entry, an extra container, another spelling of the same amounts, or the truth itself.
+func c13Tamper(t *rapid.T, sum c13Summary) (shape, annotation string) {
+	type slot struct{ cont, side, rn string }
+	var free, used []slot // batch entries a listed container does not / does have
+	for _, cn := range vk.SortedKeys(sum) {
+		for _, side := range []string{"requests", "limits"} {
+			for _, rn := range []string{string(c13BatchCPU), string(c13BatchMem)} {
+				if _, ok := sum[cn][side][rn]; ok {
+					used = append(used, slot{cn, side, rn})
+				} else {
+					free = append(free, slot{cn, side, rn})
+				}
+			}
+		}
+	}
+	set := func(sl slot, v string) {
+		if sum[sl.cont] == nil {
+			sum[sl.cont] = map[string]map[string]string{}
+		}
+		if sum[sl.cont][sl.side] == nil {
+			sum[sl.cont][sl.side] = map[string]string{}
+		}
+		sum[sl.cont][sl.side][sl.rn] = v
+	}
+	shape = rapid.SampledFrom([]string{"superset:extra-batch-entry", "superset:extra-foreign-entry", "superset:extra-batch-entry", "amount-changed",
+		"entry-removed", "extra-container", "respelled", "true-summary"}).Draw(t, "carriedShape")
+	if len(sum) == 0 && shape != "true-summary" {
+		shape = "extra-container" // nothing to be a superset of: the pod has no batch entries at all
+	}
+	if shape == "superset:extra-batch-entry" && len(free) == 0 {
+		shape = "superset:extra-foreign-entry"
+	}
+	switch shape {
+	case "superset:extra-batch-entry":
+		sl := rapid.SampledFrom(free).Draw(t, "carriedSlot")
+		set(sl, rapid.SampledFrom([]string{"2Gi", "1", "1000", "0"}).Draw(t, "carriedExtra"))
+	case "superset:extra-foreign-entry":
+		sl := rapid.SampledFrom(used).Draw(t, "carriedSlot")
+		set(slot{sl.cont, sl.side, "example.com/stale"}, "1")
+	case "amount-changed":
+		set(rapid.SampledFrom(used).Draw(t, "carriedSlot"), "987654321")
+	case "entry-removed":
+		sl := rapid.SampledFrom(used).Draw(t, "carriedSlot")
+		delete(sum[sl.cont][sl.side], sl.rn)
+		if len(sum[sl.cont][sl.side]) == 0 {
+			delete(sum[sl.cont], sl.side)
+		}
+		if len(sum[sl.cont]) == 0 {
+			delete(sum, sl.cont)
+		}
+	case "extra-container":
+		set(slot{"ghost", "limits", string(c13BatchMem)}, "2Gi")
+	case "respelled": // whole multiples of 1000 written with the k suffix; nothing else changes
+		for _, sl := range used {
+			v := sum[sl.cont][sl.side][sl.rn]
+			if strings.HasSuffix(v, "000") && strings.Trim(v, "0123456789") == "" {
+				set(sl, strings.TrimSuffix(v, "000")+"k")
+			}
+		}
+	}
+	return shape, c13JSON(map[string]any{"containers": sum})
+}
+
 // ---------------------------------------------------------------- the check
 
 func c13Admit(h *PodMutatingHandler, op admissionv1.Operation, raw []byte) (*corev1.Pod, error) {
@@ -996,6 +1084,42 @@ func TestVerifC13Mutating(t *testing.T) {
 			}
 			c.Violation(t, "readmission:"+what+"-changed", "admitting the admitted pod again (%s) changed it:\n first: %s\n again: %s\n case=%s", op, c13JSON(baseline), c13JSON(again), renderCase())
 			return
+		}
+
+		// a pod that already carries a summary annotation (a manifest copied from an admitted pod, a previous revision ...): the
+		// true summary of the final spec, tampered with. Admitted as a create — once as the original object carrying it, once as
+		// the admitted object carrying it — the annotation must again match the final spec.
+		shape, carried := c13Tamper(t, c13SummaryOf(final))
+		c.Class("carried-annotation:" + shape)
+		origWith := p.build()
+		if origWith.Annotations == nil {
+			origWith.Annotations = map[string]string{}
+		} else {
+			cp := map[string]string{}
+			for k, v := range origWith.Annotations {
+				cp[k] = v
+			}
+			origWith.Annotations = cp
+		}
+		origWith.Annotations[c13AnnoExtSpec] = carried
+		admittedWith := c13Decode(h, []byte(firstJSON))
+		if admittedWith.Annotations == nil {
+			admittedWith.Annotations = map[string]string{}
+		}
+		admittedWith.Annotations[c13AnnoExtSpec] = carried
+		for _, in := range []struct {
+			what string
+			pod  *corev1.Pod
+		}{{"original object", origWith}, {"admitted object", admittedWith}} {
+			got, err := c13Admit(h, admissionv1.Create, []byte(c13JSON(in.pod)))
+			if err != nil {
+				c.Class("~error-with-carried-annotation(not asserted)")
+				break
+			}
+			if s2, m2, _ := c13CheckAnnotation(got); s2 != "" {
+				c.Violation(t, s2+":carried-annotation", "%s admitted while carrying the annotation %s (shape %s): %s; result=%s case=%s", in.what, carried, shape, m2, c13JSON(got), renderCase())
+				return
+			}
 		}
 
 		if c.WantSample() {
